@@ -48,6 +48,14 @@ class Env:
                 p = p() if callable(p) else p
                 return ok(Agg('()', [msg.f[0], p])) if isreq else ok(p)
             return err(EnumV('ExtractError', 1, [meth, Opaque('serde_json::Error')]))
+        def st_url_part(M, fr, callee, a):
+            # url::Url accessors over the textual URL (scheme = text before the first ':')
+            u = M.deref(a[0]); t = M.deref(u.f[0]).conc(); part = callee.rsplit('::', 1)[1]
+            if t is None: raise Unsupported('symbolic URL text')
+            if part == 'scheme': return Ref(Cell(Str(t.split(':', 1)[0])))
+            if part == 'as_str': return Ref(Cell(Str(t)))
+            rest = t.split(':', 1)[1]
+            return Ref(Cell(Str(re.sub(r'^//[^/]*', '', rest))))
         return {
             r'^crossbeam_channel::Sender::<.*>::send$': st_send,
             r'^lsp_server::Response::new_ok': st_new_ok,
@@ -56,6 +64,7 @@ class Env:
             r'^lsp_server::(Request|Notification)::extract': st_extract,
             r'^<lsp_server::(RequestId|Notification|Request) as std::clone::Clone>::clone$': lambda M, fr, c, a: deep_clone(M.deref(a[0])),
             r'^<lsp_types::Url as std::clone::Clone>::clone$': lambda M, fr, c, a: deep_clone(M.deref(a[0])),
+            r'^lsp_types::Url::(scheme|as_str|path)$': st_url_part,
         }
 
 def sym_method(M, name, known_types):
